@@ -77,8 +77,9 @@ def run_cases(prop, cases, tag):
         impl = run_impl_shards(scripts, work, tag)
         mscripts = [prop.model_script(c, impl.get(c.sid, [])) for c in cases]
         model = run_model_shards(mscripts, work, tag)
-        # optional second model pass (e.g. the composed outstation model, engine `ofull`): scripts that
-        # do NOT depend on the implementation's answers; None = the case is not covered by that model
+        # optional second model pass (the composed outstation model, engine `ofull`; the composed master model,
+        # engine `mfull`; prop.extra_name names the engine in the reports): scripts that do NOT depend on the
+        # implementation's answers / the generator's oracle inputs; None = the case is not covered by that model
         extra = None
         if hasattr(prop, "extra_model_script"):
             xscripts = [x for x in (prop.extra_model_script(c, impl.get(c.sid, [])) for c in cases) if x]
@@ -295,7 +296,7 @@ def check_property(prop, tier, seed, replay=None):
         for c, it, mt in mismatches[:5]:
             what.append({"broken": "correspondence", "script": c.script, "impl_trace": it, "model_trace": mt})
         for c, it, xt in xmismatches[:5]:
-            what.append({"broken": "correspondence-ofull", "script": c.script, "impl_trace": it, "model_trace": xt})
+            what.append({"broken": "correspondence-" + getattr(prop, "extra_name", "ofull"), "script": c.script, "impl_trace": it, "model_trace": xt})
         for sid, text, diff in xc_differences[:5]:
             what.append({"broken": "extraction-crosscheck", "script": text, "difference": diff})
         path = write_replay(prop.id, "unexplained.json",
@@ -328,7 +329,7 @@ def check_property(prop, tier, seed, replay=None):
     for c, it, mt in mismatches[:3]:
         print("MISMATCH %s\n  script: %s\n  impl:   %s\n  model:  %s" % (c.sid, c.script.replace("\n", " / ")[:600], " / ".join(it)[:400], " / ".join(mt)[:400]))
     for c, it, xt in xmismatches[:3]:
-        print("MISMATCH-ofull %s\n  script: %s\n  %s" % (c.sid, c.script.replace("\n", " / ")[:600], first_difference(prop.extra_canon(it, "impl"), prop.extra_canon(xt, "model"))))
+        print("MISMATCH-%s %s\n  script: %s\n  %s" % (getattr(prop, "extra_name", "ofull"), c.sid, c.script.replace("\n", " / ")[:600], first_difference(prop.extra_canon(it, "impl"), prop.extra_canon(xt, "model"))))
     return exit_code
 
 
